@@ -77,7 +77,13 @@ def strategy(tier):
         lambda ms: st.fixed_dictionaries({
             "moving_ticks": st.just(ms[0]), "safe_state": st.just(ms[1]),
             "ops": ops(*ms),
-            "decl": st.sampled_from(["packet", "process"])}))
+            "decl": st.sampled_from(["packet", "process"]),
+            # the channels (bit numbers) of open switch, closed switch, coil
+            "bits": st.tuples(st.integers(0, 7), st.integers(0, 7),
+                              st.integers(0, 7)).filter(
+                lambda b: b[0] != b[1]).map(list),
+            # what the other output channels of the terminal hold
+            "other_out": st.sampled_from([0, 0xff, 0x80, 0x55])}))
 
 
 class Clock:
@@ -99,12 +105,19 @@ def run_case(case):
 
 def _run(case, clock):
     ec = SimpleEtherCat("verif")
+    ob, cb, kb = case.get("bits") or [0, 1, 0]
     if case.get("decl") == "process":
-        term = TP(ec)
+        term = type("TPb", (EBPFTerminal,), {
+            "open_sw": ProcessDesc(0x6000, 1, ob),
+            "closed_sw": ProcessDesc(0x6000, 1, cb),
+            "coil": ProcessDesc(0x7000, 1, kb)})(ec)
         term.pdos = {(0x6000, 1): (SyncManager.IN, 0, "B"),
                      (0x7000, 1): (SyncManager.OUT, 0, "B")}
     else:
-        term = T(ec)
+        term = type("Tb", (EBPFTerminal,), {
+            "open_sw": PacketDesc(SyncManager.IN, 0, ob),
+            "closed_sw": PacketDesc(SyncManager.IN, 0, cb),
+            "coil": PacketDesc(SyncManager.OUT, 0, kb)})(ec)
     term.position = 9
     term.pdo_in_sz = 1
     term.pdo_out_sz = 1
@@ -125,6 +138,8 @@ def _run(case, clock):
     if in_pos == out_pos:
         from ..runner import HarnessError
         raise HarnessError("input and output regions coincide")
+    other = case.get("other_out", 0) & ~(1 << kb) & 0xff
+    sg.current_data[out_pos] = other
     safe = case["safe_state"]
     # model
     m = dict(coil=False, target=False, error=False, last_good=0)
@@ -140,9 +155,9 @@ def _run(case, clock):
             m["target"] = op[1]
         elif op[0] == "switches":
             sw = list(op[1])
-            b = sg.current_data[in_pos] & ~3
-            sg.current_data[in_pos] = b | (1 if sw[0] else 0) \
-                | (2 if sw[1] else 0)
+            b = sg.current_data[in_pos] & ~((1 << ob) | (1 << cb))
+            sg.current_data[in_pos] = b | ((1 << ob) if sw[0] else 0) \
+                | ((1 << cb) if sw[1] else 0)
         elif op[0] == "advance":
             clock.ticks += op[1]
         elif op[0] == "regroup":
@@ -185,7 +200,7 @@ def _run(case, clock):
                     br = "timeout-first-tick"
             branches.append(br)
             v.update()
-            coil = bool(sg.current_data[out_pos] & 1)
+            coil = bool(sg.current_data[out_pos] & (1 << kb))
             target = bool(v.target)
             error = bool(v.error)
             trace.append([br, coil, target, error])
@@ -200,7 +215,7 @@ def _run(case, clock):
                           f"{(m['coil'], m['target'], m['error'])}"),
                     safe_state=safe, branch=br, summary=trace[-5:])
             # other output bits must stay untouched
-            if sg.current_data[out_pos] & ~1:
+            if sg.current_data[out_pos] & ~(1 << kb) & 0xff != other:
                 return dict(ok=False, nontrivial=True, classes=[br],
                             what="update changed other output bits")
     nontrivial = any(b.startswith(("moving", "timeout")) for b in branches)
